@@ -351,6 +351,16 @@ func genMalformed(r *rng) string {
 	}
 }
 
+// no generated case has a result of a megabyte (paddings stay below 20001
+// elements); a result that large means a bound was lost — report it as such
+// instead of handing megabytes of text to the model runners
+func malCap(obs string) string {
+	if len(obs) > 1<<20 {
+		return "HUGE-RESULT"
+	}
+	return obs
+}
+
 func malDispatch(c *sx) *family {
 	switch c.list[0].atom {
 	case "match":
@@ -552,7 +562,7 @@ func init() {
 			if f == nil {
 				return "BAD-CASE"
 			}
-			return f.run(c)
+			return malCap(f.run(c))
 		},
 		classify: func(c *sx, obs string) ([]string, bool) {
 			kind := "ok"
@@ -572,7 +582,7 @@ func init() {
 	register(&family{
 		name: "apimal",
 		gen:  genAPIMal,
-		run:  runAPI,
+		run:  func(c *sx) string { return malCap(runAPI(c)) },
 		classify: func(c *sx, obs string) ([]string, bool) {
 			var labels []string
 			replies := strings.Split(obs, " ;; ")
